@@ -249,7 +249,7 @@ def runProgram (d : DState) (src : Str) (args : List String) : String × DState 
   | .ok toks =>
     match parse ctx 1000000 toks with
     | .ok prog =>
-      let w : World := { fs := d.fs, stdin := stdin, platform := "linux".toList }
+      let w : World := { fs := d.fs, stdin := stdin, platform := W.wLinux }
       match runLoop prog mode fuel 0 prog (St.init w) with
       | .ok s =>
         let extra := (if wantFs then " fs=" ++ fsListing s.world.fs else "") ++
